@@ -89,3 +89,45 @@ def draw_conformance(ctx, bounds, what):
                 biased.append(n)
     ctx.cover["draw_conformance_bounds"] = bounds
     return biased
+
+
+def generator_scenarios(rng):
+    """Generators whose every random choice must be a bounded draw: all schemes x lengths x separators, and character recipes."""
+    o = lambda t: [ord(c) for c in t]
+    out = []
+    words = [o(w) for w in ("one", "two", "three", "kettő", "zebra", "größe", "mcdonald")]
+    for cap in ("none", "first", "all", "random", "one"):
+        for L in (3, 5, 6):
+            for sep in (dict(sep="char", sepChar=o("-")), dict(sep="SFDigits1", sepChar=[]), dict(sep="SFSymbols", sepChar=[])):
+                wl = dict(words=words, nolist=0, len=L, cap=cap)
+                wl.update(sep)
+                out.append(dict(kind="wl", wl=wl, maxTrials=0, failRateOne=1, mode="paths", paths=0, maxLeaves=0, tag="gen-%s-%d" % (cap, L), reps=0))
+    for c in (dict(len=7, allow=15, exclude=16), dict(len=5, allow=4, require=4), dict(len=3, allowChars=o("abcde"), requireSets=[o("ab")])):
+        base = dict(len=1, allow=0, require=0, exclude=0, allowChars=[], requireSets=[], excludeChars=[])
+        base.update(c)
+        out.append(dict(kind="char", char=base, maxTrials=0, failRateOne=1, mode="paths", paths=0, maxLeaves=0, tag="gen-char", reps=0))
+    return out
+
+
+def opaque_reads(ctx, rng, nrand=65536):
+    """C01 (iii): reads of the random source that no bounded draw announced, probed and decided by the pigeonhole rule (DrawTrace!OpaqueWhys)."""
+    import json
+    scen = generator_scenarios(rng)
+    sf = ctx.path("opaque-scen.ndjson")
+    with open(sf, "w") as f:
+        for s_ in scen:
+            f.write(json.dumps(s_) + "\n")
+    out = ctx.path("opaque.ndjson")
+    ctx.drv("opaque", "-seed", ctx.seed, "-scen", sf, "-out", out, "-nrand", nrand)
+    v = ctx.validate("DrawTrace", out, tag="opaque")
+    n = 0
+    for b in v["bad"]:
+        e = vlib.nth_line(out, b["l"])
+        if b["why"].startswith("prop:"):
+            n += 1
+            ctx.violation("generator %s: %s (%d distinct outcomes over %d probed raw words, no redraw)" % (e["tag"], b["why"][5:], e["outcomes"], e["probed"]),
+                          dict(kind="opaque-read", scenario=scen[e["id"]], event=e))
+        elif b["why"].startswith("shape:"):
+            ctx.drift("generator %s: %s" % (e["tag"], b["why"][6:]))
+    ctx.cover["generators_probed_for_unannounced_reads"] = len(scen)
+    return n
